@@ -477,6 +477,13 @@ func (oc *objectCache) get(obj types.Object) (val interface{}, errs []error) {
 		// Universe objects such as nil and true.
 		return nil, []error{fmt.Errorf("%v is not a provider or a provider set", obj)}
 	}
+	if obj.Parent() != obj.Pkg().Scope() {
+		// A parameter, local variable, field or method. Only package-level
+		// declarations can be providers or provider sets, and the cache
+		// below must not confuse obj with a package-level object that has
+		// the same name.
+		return nil, []error{fmt.Errorf("%v is not a provider or a provider set", obj)}
+	}
 	ref := objRef{
 		importPath: obj.Pkg().Path(),
 		name:       obj.Name(),
